@@ -86,6 +86,16 @@ def do_case(ctx, inp):
 
 
 def run(ctx):
+    for rows_n in ((1030, 2049) if ctx.quick else (1030, 2049, 4100)):
+        # many rows over few columns (a rule per article): row bounds are per row, however many there are
+        bnds = [[ctx.rng.randint(-2, 0), ctx.rng.randint(1, 3)] for _ in range(3)]
+        rows = []
+        for _ in range(rows_n):
+            cs = [ctx.rng.choice([0, 1, -1, 2, -3]) for _ in range(3)]
+            lo = sum(min(c * b[0], c * b[1]) for c, b in zip(cs, bnds))
+            rows.append([lo - ctx.rng.randint(0, 2), cs])          # redundant rows: the box stays feasible
+        ctx.tags["polyhedron-with-more-than-a-thousand-rows"] += 1
+        do_case(ctx, {"p": {"bnds": bnds, "rows": rows}})
     n = (1200 if ctx.quick else 6000) * (3 if ctx.search else 1)
     for _ in range(n):
         r = ctx.rng.random()
